@@ -61,7 +61,7 @@ RICH = PREFIX + [reg._unit("length", "cm"), reg._unit("length", "lbmol", dc="dep
 PREFIX2 = PREFIX + [reg._unit("length", "cm"), reg._cat("depth", "length")]
 
 
-def _rnd_query(rng, units=(), cats=()):
+def _rnd_query(rng, units=(), cats=(), extra=False):
     types = reg.TYPES + ["Unknown"]
     syms = reg.SYMS + ["Mcf", "1000ft3", "<unknown>", "degC", "km"]
     allcats = reg.CATS + ["Unknown", "nope"]
@@ -75,6 +75,10 @@ def _rnd_query(rng, units=(), cats=()):
     c, u, v = cat(), unit(), unit()
     if u == "lbmol" and rng.random() < 0.3:
         u = "lbmole"
+    if extra and rng.random() < 0.3:
+        # asked on the real code only (failing-input search)
+        return rng.choice([dict(q="isValidU", u=u, x=rng.choice([0.0, 3.0, 700.0, -2.0])), dict(q="infoU", u=u),
+                           dict(q="quantityTypes"), dict(q="checkQuantityType", qt=rng.choice(types))])
     return rng.choice([
         dict(q="check", c=c, u=u), dict(q="check", c=c, u=u),
         dict(q="create", c=c, u=u), dict(q="create", c=c, u=u),
@@ -89,7 +93,7 @@ def _rnd_query(rng, units=(), cats=()):
     ])
 
 
-def _random(ctx, salt, n, maxlen):
+def _random(ctx, salt, n, maxlen, extra=False):
     rng = ctx.fresh_rng("C15" + salt)
     for _ in range(n):
         ops = []
@@ -107,7 +111,7 @@ def _random(ctx, salt, n, maxlen):
             elif r < 0.4 and ops:
                 ops.append(dict(ops[rng.randrange(len(ops))]))       # repeat an earlier step (memo / cache path)
             else:
-                ops.append(_rnd_query(rng, units, cats))
+                ops.append(_rnd_query(rng, units, cats, extra))
         yield _history(ops, "random")
 
 
@@ -241,7 +245,10 @@ def _check(ops):
                                 call=_show(op), history=[_show(x) for x in ops[: i + 1]])
             else:
                 o = rc.apply_reg(db, op)
-            # the same operation on a fresh database built from the same registrations
+                if "err" in o and rc.snapshot(db) != before:
+                    return dict(clause="a failing operation changed what the unit database reports", step=i,
+                                call=_show(op), error=o["err"], history=[_show(x) for x in ops[: i + 1]])
+            # the same operation on a fresh database built from the registrations accepted so far
             fresh = reg._new_db()
             UnitDatabase.PushSingleton(fresh)
             try:
@@ -254,7 +261,7 @@ def _check(ops):
                 return dict(clause="an operation answers differently after a history of other operations than on a "
                                    "freshly built database", step=i, call=_show(op), warm=o, fresh=o2,
                             history=[_show(x) for x in ops[: i + 1]])
-            if "q" not in op:
+            if "q" not in op and "err" not in o:
                 regs.append(op)
     finally:
         UnitDatabase.PopSingleton()
@@ -274,9 +281,40 @@ def oracle(c, ctx):
     return _check(c["_t"]["ops"])
 
 
+ORACLE_ONLY = ("isValidU", "infoU", "quantityTypes", "checkQuantityType")
+
+
+def _directed():
+    """Sequences for the failing-input search (real code only; they use query kinds the model does not have):
+    (a) a unit-only lookup, then an overriding AddCategory with limits, then unit-only questions again;
+    (b) a rejected registration that names a quantity type which does not exist yet, then questions about it."""
+    pre = [reg._base("length", "m"), reg._unit("length", "cm"), reg._cat("length", "length")]
+    firsts = [dict(q="createU", u="m"), dict(q="isValidU", u="m", x=5.0), dict(q="infoU", u="cm"),
+              dict(q="add", c1="length", u1="m", c2="length", u2="cm", x=1.0, y=2.0)]
+    overrides = [reg._cat("length", "length", override=True, min_value=0.0, max_value=10.0, default_value=1.0),
+                 reg._cat("length", "length", override=True, min_value=2.0, default_unit="cm"),
+                 reg._cat("length", "length", override=True, valid_units=["cm"], max_value=3.0)]
+    lasts = [dict(q="isValidU", u="m", x=-1.0), dict(q="isValidU", u="cm", x=2000.0), dict(q="infoU", u="m"),
+             dict(q="infoU", u="cm"), dict(q="createC", c="length"), dict(q="isValid", c="length", u="m", x=-1.0),
+             dict(q="createU", u="m"), dict(q="objValidUnits", c="length", u="m")]
+    for f in firsts:
+        for ov in overrides:
+            yield _history(pre + [f, ov] + lasts, "directed")
+    pre = [reg._base("length", "m")]
+    rejected = [reg._unit("distance", "m"), reg._base("distance", "m"), reg._unit("speed", "knot", fb=rc.NO_X),
+                reg._unit("speed", "knot", tb=rc.SYNTAX), reg._unit("speed", "knot", fb=rc.SYNTAX)]
+    for rj in rejected:
+        qt = rj["qt"]
+        qs = [dict(q="quantityTypes"), dict(q="checkQuantityType", qt=qt), dict(q="units", qt=qt),
+              dict(q="baseUnit", qt=qt), dict(q="convert", cq=qt, u="m", v="knot", x=1.0)]
+        yield _history(pre + [rj] + qs + [reg._cat("c1", qt)], "directed")
+        yield _history(pre + qs[:2] + [rj] + qs, "directed")
+
+
 def search(ctx):
+    yield from _directed()
     yield from _exhaustive(3)
-    yield from _random(ctx, "s", 1500 if ctx.tier == "quick" else 15000, 25)
+    yield from _random(ctx, "s", 1500 if ctx.tier == "quick" else 15000, 25, extra=True)
 
 
 def shrink(case, failure, ctx):
